@@ -214,7 +214,7 @@ func opCases(c *Ctx) {
 	counts := []string{"I64:0", "I64:1", "I64:63", "I64:64", "I64:65", "I64:511", "I64:512", "I64:513", "I64:-1", "Big:18446744073709551615", "Big:18446744073709551616", "F64:1p1", "F64:3p-1", "Rat:4/1", "Rat:1/3", "BigF:1p3", "Cplx:I64:2,I64:0", "Cplx:I64:2,I64:1", "Big:3", "Big:-3", "I64:448", "I64:449", "I64:1074", "I64:9223372036854775807"}
 	for i, x := range all {
 		for j, n := range counts {
-			if !c.Thorough() && (i+j)%2 != 0 {
+			if !c.Thorough() && (i+j)%3 != 0 {
 				continue
 			}
 			opCase(c, "bin", "<<", x, n)
